@@ -123,6 +123,81 @@ CHECKS = {
         'Trusted: the harness reference encoders/decoders and 54 golden vectors written from the specifications.',
         'DESIGN.md 3/C18',
     ),
+    'C08': (
+        'generated spec pairs x SDU programs on real channels; SDU-list equality + harness-decoded ERTM wire monitor; set-up grid enumerated',
+        'exploration',
+        'Two real devices (BR/EDR and LE carriers) open a classic channel with independently generated specs (mode, MTU, '
+        'MPS down to 23, TxWindow 1..63, FCS, retransmission timers) and run generated write programs in both directions '
+        '(unsegmented, k x MPS +-1, >64 segments so TxSeq wraps, echo from the sink, writes right after create) under '
+        'order-preserving HCI delays, including round trips longer than the retransmission timeout. Oracle: SDU list at '
+        'each sink equals the list written; from the ACL stream the harness decodes configuration options and enhanced '
+        'control fields itself and checks TxSeq continuity mod 64, unacked <= peer TxWindow, ReqSeq never acknowledges '
+        'unsent frames, SAR well-formed, payload <= peer MPS, CRC-16 FCS; set-up ends both OPEN in one mode or both '
+        'CLOSED (220/508-case grid enumerated), no hang or livelock.',
+        'Trusted: the harness control-field/option decoders and CRC-16 (self-tested on the Core-spec vectors); no frame '
+        'loss is injected (the property quantifies over delays only).',
+        'DESIGN.md 3/C08',
+    ),
+    'C09': (
+        'model-based operation histories (open/refuse/close/abort/drain/cut/reconnect) over several links; table and waiter invariants at quiescence',
+        'exploration',
+        'Histories over one central and 1..3 peripherals (LE, LE carrying classic channels, BR/EDR) with servers on 1..3 '
+        'PSMs per kind, every operation started as a task with a generated wait so cuts land inside pending '
+        'opens/closes/drains and operations overlap on different links; plus a RawPeer variant that does credit-based '
+        'signalling by hand with its own CIDs and re-uses them. At every quiescence: channels/le_coc_channels hold exactly '
+        'the open channels under the right keys, nothing for closed channels or dead links, pending tables empty, CIDs '
+        'unique per connection, an open to a served PSM on a live link succeeds whatever happened before (here or on '
+        'another link), every started connect/disconnect/drain task is done.',
+        'Trusted: the hybrid model (reported-open channel objects + history model) in the check; abort() is treated as a '
+        'one-sided teardown.',
+        'DESIGN.md 3/C09',
+    ),
+    'C16': (
+        'fault enumeration over message boundaries: every procedure x every boundary k x 4 cut kinds, plus sampled delays',
+        'exploration',
+        'A catalogue of 22 procedures that await the peer (GATT read/write/discover/subscribe/indicate, pairing, LE CoC '
+        'and classic channel connect/disconnect/drain, EATT, ACL disconnect, remote features/name, SDP, RFCOMM, AVDTP, '
+        'plain HCI command) is run un-faulted to count the messages M crossing the HCI taps; then for every k in 0..M and '
+        'each of local disconnect / remote disconnect / link loss / transport loss the run is repeated on a fresh world '
+        'with the cut injected after message k (1284 runs enumerated in both tiers, plus Hypothesis-sampled delay '
+        'vectors). After quiescence: the awaitable is done, no task left pending, host/device/controller tables agree '
+        'and no longer list the connection, GATT/SMP/L2CAP/ACL-queue state for it is gone, the bystander connection '
+        'still works, and a new connection runs the same procedure successfully.',
+        'Trusted: "every operation" = the catalogue listed in the evidence; hang = still pending at stall or 400 virtual '
+        'seconds (beyond every Bumble timeout).',
+        'DESIGN.md 3/C16',
+    ),
+    'C19': (
+        'reference record-matching model for SDP (concurrent clients, continuation) + byte-exact fragmentation/reassembly with fault sequences + AVDTP state-diagram model',
+        'exploration',
+        'SDP: 1..3 real clients on different peers connected at the same time query a real server over generated record '
+        'sets (sizes around multiples of the per-response capacity, up to the client continuation limit) and MTUs; '
+        'results must equal the harness model (a record matches iff EVERY pattern UUID occurs in it, recursively; '
+        'attributes in id order; each client its own answer). AVDTP: send_message over a stub channel must emit PDUs <= '
+        'MTU with a correct single|start,continue*,end sequence and exact packet count, and MessageAssembler must deliver '
+        'byte-identical messages exactly once; after dropped/duplicated/mis-labelled/stray fragments only the affected '
+        'message may be lost. AVCTP: a harness sender following the specification layout (PID in the start packet only). '
+        'Stream: operation lists (configure/open/start/suspend/close/abort, legal and illegal, API and raw commands) '
+        'against the AVDTP state diagram: source state == sink state == model, illegal operations refused.',
+        'Trusted: the harness record-matching model, fragment generator and state-diagram model; SDP over the BR/EDR '
+        'carrier only; answers above the 64-response continuation limit are outside the domain.',
+        'DESIGN.md 3/C19',
+    ),
+    'C20': (
+        'stream equality + harness RFCOMM wire monitor (own frame decoder/FCS, credit ledger) + HFP negotiated-view comparison + AT final-result-code monitor',
+        'exploration',
+        'RFCOMM between two real devices (BR/EDR and LE carriers) with generated L2CAP MTUs, max_frame_size 23..32767 and '
+        'initial credits 1..7 per side, 1..4 DLCs, write programs in both directions (k x frame size +-1, long runs so the '
+        'credit ledger wraps), close by either/both sides, reopen, refused open, multiplexer teardown, HCI delays: exact '
+        'byte streams per DLC, no interference, frames <= receiver N1 and L2CAP MTU, sender credit ledger never negative '
+        'and equal to DLC.tx_credits, drain completes, both ends in matching states. HFP: covering array + sampled subsets '
+        'of the 26 HF/AG feature flags, indicator/codec/call-hold lists; initiate_slc completes and both sides hold the '
+        'same features, indicator table, HF indicators, codecs, call-hold set; every AT command the AG receives (HF API '
+        'commands and 246 enumerated raw form/arity variants) gets exactly one final result code, last.',
+        'Trusted: the harness RFCOMM decoder/FCS and AT monitor; payload limit = the maximum frame size the receiver '
+        'advertised in its PN; an AG with no AG indicators may refuse the SLC cleanly.',
+        'DESIGN.md 3/C20',
+    ),
 }
 
 NOT_YET = 'check not built yet in this session (planned in DESIGN.md section 3)'
